@@ -1,0 +1,112 @@
+//! Verification hooks. Only compiled with `RUSTFLAGS="--cfg circ_verif"`.
+//!
+//! Nothing in here changes the behaviour of the library: `yield_point`/`event` only call out to
+//! function pointers installed by a test harness (and do nothing if none is installed), and the
+//! shims re-exported below only read library state or forward to existing crate-private functions.
+
+use core::sync::atomic::{AtomicUsize, Ordering};
+
+static YIELD_HOOK: AtomicUsize = AtomicUsize::new(0);
+static EVENT_HOOK: AtomicUsize = AtomicUsize::new(0);
+
+/// Installs (or removes) the function called before every instrumented atomic access.
+pub fn set_yield_hook(f: Option<fn(u32)>) {
+    YIELD_HOOK.store(f.map_or(0, |f| f as usize), Ordering::SeqCst);
+}
+
+/// Installs (or removes) the function called at every instrumented library event.
+pub fn set_event_hook(f: Option<fn(u32, usize, usize)>) {
+    EVENT_HOOK.store(f.map_or(0, |f| f as usize), Ordering::SeqCst);
+}
+
+#[inline]
+pub fn yield_point(site: u32) {
+    let f = YIELD_HOOK.load(Ordering::Relaxed);
+    if f != 0 {
+        let f: fn(u32) = unsafe { core::mem::transmute(f) };
+        f(site)
+    }
+}
+
+#[inline]
+pub fn event(kind: u32, addr: usize, aux: usize) {
+    let f = EVENT_HOOK.load(Ordering::Relaxed);
+    if f != 0 {
+        let f: fn(u32, usize, usize) = unsafe { core::mem::transmute(f) };
+        f(kind, addr, aux)
+    }
+}
+
+/// Calls `yield_point` when dropped, i.e. *after* the statement it precedes has been evaluated.
+pub struct YieldAfter(pub u32);
+
+impl Drop for YieldAfter {
+    #[inline]
+    fn drop(&mut self) {
+        yield_point(self.0)
+    }
+}
+
+macro_rules! sites {
+    ($($name:ident = $val:expr),* $(,)?) => {
+        /// Yield site identifiers.
+        pub mod site {
+            $(pub const $name: u32 = $val;)*
+            pub const ALL: &[(u32, &str)] = &[$(($val, stringify!($name))),*];
+        }
+    };
+}
+
+sites! {
+    INC_S_1 = 1,
+    INC_S_2 = 2,
+    TDA_LOAD = 3,
+    INC_W_LOAD = 4,
+    INC_W_CAS = 5,
+    INC_W_FA1 = 6,
+    INC_W_FA2 = 7,
+    DEC_W = 8,
+    IND_LOAD = 9,
+    IND_CAS = 10,
+    DEC_S_LOAD = 11,
+    DEC_S_CAS = 12,
+    TD_LOAD = 13,
+    TD_CAS = 14,
+    CASC_STATE = 15,
+    CASC_WEAKED = 16,
+    CASC_LOAD = 17,
+    CASC_CAS = 18,
+    LINK_LOAD = 19,
+    LINK_SWAP = 20,
+    LINK_CAS = 21,
+    WLINK_LOAD = 22,
+    WLINK_SWAP = 23,
+    WLINK_CAS = 24,
+    EPOCH_LOAD = 25,
+    EPOCH_LOADED = 26,
+    EPOCH_STORE = 27,
+    EPOCH_CAS = 28,
+    RAW_LOAD = 29,
+    RAW_STORE = 30,
+    RAW_CAS = 31,
+    RAW_CASW = 32,
+    RAW_FOR = 33,
+    CASC_MARK_LOAD = 34,
+    CASC_MARK_CAS = 35,
+}
+
+/// Event kinds.
+pub mod ev {
+    /// A reference-counted block was allocated (`addr`).
+    pub const ALLOC: u32 = 1;
+    /// A reference-counted block is about to be freed (`addr`).
+    pub const DEALLOC: u32 = 2;
+    /// The `DESTRUCTED` flag of `addr` has just been set.
+    pub const MARKED: u32 = 3;
+    /// `addr` is being destructed now by the disposal pass, at recursion depth `aux`.
+    pub const DISPOSE: u32 = 4;
+    /// The disposal pass re-deferred `addr` at recursion depth `aux`.
+    pub const REDEFER: u32 = 5;
+    /// A list element (`addr`) was handed to `IsElement::finalize`.
+    pub const LIST_FINALIZE: u32 = 6;
+}
